@@ -66,8 +66,8 @@ C["C04"] = dict(level="other",
  assumptions=COMMON_ASSUME + ["funcs (reflection) replaced by a model rebuilt from go/types", "the peer disconnects only after the server has gone quiet (live connection)"],
  stubs=["zzMsgs", "funcs model", "zzBytesCodec", "hslam/log"],
  bounds={"requests": "quick 2, thorough 3", "args": "1 or 10 symbolic bytes", "modes": "pipelining x directIO x shared x bufsize{8,64}", "schedules": SCHED},
- outside=["handler bodies and reflection internals", "Transport/Client never retry: by reading (Transport.Call = one Conn.Call) and C14/C16 harnesses, not a separate query", "poll mode (stream harness only)"],
- runs={"quick": [run("SRV", labels=SRV_C04)], "thorough": [run("SRV", params={"srv.N": 3, "srv.kinds": 6}, labels=SRV_C04, budget=2400)]})
+ outside=["handler bodies and reflection internals", "poll mode (C05 SRVp and stream harnesses only)", "Client.Call never retries: covered through the CLT harness's one-roundtrip-per-call label under C16"],
+ runs={"quick": [run("SRV", params={"srv.kinds": 8}, labels=SRV_C04 + ["rejected-request-not-answered"]), run("TRretry")], "thorough": [run("SRV", params={"srv.N": 3, "srv.kinds": 8}, labels=SRV_C04 + ["rejected-request-not-answered"], budget=3000), run("TRretry"), run("TRretry", P=1, gran=1)]})
 
 C["C05"] = dict(level="other",
  explanation="Server: SRV harness with pipelining on and handlers that yield in the middle: executions never overlap, execution order and response order (pings excepted: they are not executed and may be answered by the decode worker) equal arrival order. Client: CLI harness with SetPipelining: calls issued by one goroutine on a shared Done channel must be signalled in issue order for every mix of success and server-reported error.",
@@ -137,8 +137,8 @@ C["C11"] = dict(level="other",
  stubs=["zzMsgs", "funcs model", "zzBytesCodec"],
  bounds={"message length": "1..3 (C11m), 1 or 10 (handler args)", "further traffic": "2 messages / 1-2 frames"},
  outside=["NoCopy modes (excluded by the property)", "user code calling FreeContextBuffer"],
- runs={"quick": [run("C11m"), run("SRV", labels=["handler-args-stable"]), run("CLI", labels=["reply-of-own-args"]), run("C19", labels=["own-reply", "reply-placed-in-context-buffer", "nothing-written-past-reply-length", "small-buffer-untouched"])],
-       "thorough": [run("C11m"), run("SRV", params={"srv.N": 3, "srv.kinds": 4}, labels=["handler-args-stable"], budget=1500), run("CLI", params={"cli.K": 3}, labels=["reply-of-own-args"], budget=900), run("C19", labels=["own-reply", "reply-placed-in-context-buffer", "nothing-written-past-reply-length", "small-buffer-untouched"])]})
+ runs={"quick": [run("C11m"), run("SRV", labels=["handler-args-stable"]), run("SRV", params={"srv.kinds": 1, "srv.arglens": 4, "srv.bufsizes": 4}, labels=["handler-args-stable"]), run("STRc", labels=["messages-in-order-unmodified"]), run("STRs", params={"str.W": 2, "str.R": 2}, labels=["handler-messages-in-order-unmodified", "pushes-in-order-unmodified"]), run("CLI", labels=["reply-of-own-args"]), run("C19", labels=["own-reply", "reply-placed-in-context-buffer", "nothing-written-past-reply-length", "small-buffer-untouched"])],
+       "thorough": [run("C11m"), run("SRV", params={"srv.N": 3, "srv.kinds": 4}, labels=["handler-args-stable"], budget=1500), run("SRV", params={"srv.N": 3, "srv.kinds": 1, "srv.arglens": 4, "srv.bufsizes": 4}, labels=["handler-args-stable"], budget=1500), run("STRc", params={"str.N": 3}, labels=["messages-in-order-unmodified"]), run("STRs", params={"str.W": 2, "str.R": 3}, labels=["handler-messages-in-order-unmodified", "pushes-in-order-unmodified"]), run("CLI", params={"cli.K": 3}, labels=["reply-of-own-args"], budget=900), run("C19", labels=["own-reply", "reply-placed-in-context-buffer", "nothing-written-past-reply-length", "small-buffer-untouched"])]})
 
 C["C12"] = dict(level="other",
  explanation="Projection of C12 that symbolic execution can reach: (i) DialWithOptions and ListenWithOptions, run on the same Options value from a menu covering registered names, unregistered names with constructors, constructors only and both, build codecs with the same body-codec and header-encoder types and a registered name wins over a constructor on both ends; (ii) the server harness's oracle (replies, errors, executions) does not depend on the mode vector (pipelining x directIO x context buffer x buffer size smaller/larger than the message), so passing it in every mode is mode independence; buffer sizes in the header glue: C07.",
@@ -166,8 +166,8 @@ C["C14"] = dict(level="other",
  assumptions=COMMON_ASSUME + ["time.Now arbitrary non-decreasing", "IdleConnTimeout > KeepAlive so that a retired connection can stay in the idle queue"],
  stubs=["zzMsgs (auto-answering server)", "Dial stub", "clock"],
  bounds={"operations": "3 (thorough 4)", "recovery calls": "3 (thorough 4)", "ticks": "2"},
- outside=["Transport.Go/RoundTrip asynchronous outcome bookkeeping (only Call is driven)", "concurrent callers"],
- runs={"quick": [run("TR", labels=TR_C14), run("TRrec")], "thorough": [run("TR", params={"tr.S": 4, "tr.ticks": 2}, labels=TR_C14, budget=2400), run("TRrec", params={"tr.R": 4, "tr.ticks": 3}, budget=900)]})
+ outside=["Transport.Go/RoundTrip on a connection that dies after the call was issued (asynchronous outcome bookkeeping)", "concurrent callers"],
+ runs={"quick": [run("TR", labels=TR_C14), run("TRrec"), run("TRaddr"), run("TRvia")], "thorough": [run("TR", params={"tr.S": 4, "tr.ticks": 2}, labels=TR_C14, budget=2400), run("TRrec", params={"tr.R": 4, "tr.ticks": 3}, budget=900), run("TRaddr", params={"tr.ticks": 3}), run("TRvia", params={"tr.ticks": 2})]})
 
 C["C15"] = dict(level="other",
  explanation="A holder goroutine makes a long call through the real Transport (the stub server answers only at the end) while housekeeping ticks (symbolic clock: the connection may look arbitrarily old) and CloseIdleConnections run; the connection carrying the unanswered request must not be closed and the call must succeed; Transport.Close closes every connection. quick: macro-step interleavings; thorough: additionally Lock-granularity with 2 preemptions (the check-then-close window).",
@@ -175,8 +175,8 @@ C["C15"] = dict(level="other",
  assumptions=COMMON_ASSUME + ["time.Now arbitrary non-decreasing"],
  stubs=["zzMsgs", "Dial stub", "clock"],
  bounds={"housekeeping operations during the call": "2", "ticks": "2", "thorough": "gran 1: P=2 with CloseIdleConnections only (limits (1,1), no warm-up); P=1 with one operation and one tick"},
- outside=["open streams as the busy marker", "more than 2 preemptions"],
- runs={"quick": [run("C15"), run("TRlim", params={"trlim.limits": 2}, labels=["close-closes-every-connection"])], "thorough": [run("C15"), run("TRlim", labels=["close-closes-every-connection"], budget=1500), run("C15", P=2, gran=1, params={"c15.ops": 1, "c15.ticks": 0, "c15.nlimits": 1, "c15.nwarm": 1, "c15.closeonly": 1}, budget=900), run("C15", P=1, gran=1, params={"c15.ops": 1, "c15.ticks": 1, "c15.nlimits": 1}, budget=1500)]})
+ outside=["more than 2 preemptions"],
+ runs={"quick": [run("C15"), run("C15s"), run("TRlim", params={"trlim.limits": 2}, labels=["close-closes-every-connection"])], "thorough": [run("C15"), run("C15s", params={"c15.ticks": 2}), run("TRlim", labels=["close-closes-every-connection"], budget=1500), run("C15", P=2, gran=1, params={"c15.ops": 1, "c15.ticks": 0, "c15.nlimits": 1, "c15.nwarm": 1, "c15.closeonly": 1}, budget=900), run("C15", P=1, gran=1, params={"c15.ops": 1, "c15.ticks": 1, "c15.nlimits": 1}, budget=1500)]})
 
 CLT_C16 = ["one-roundtrip-per-call", "director-result-wins", "routed-to-current-target", "unrouted-call-fails-with-timeout"]
 C["C16"] = dict(level="other",
@@ -186,7 +186,7 @@ C["C16"] = dict(level="other",
  stubs=["zzRT (RoundTripper)", "clock", "timers fire at quiescent points"],
  bounds={"operations": "quick 2, thorough 3", "target menu": "6 lists over {a,b,c} incl. duplicates/empty", "ticks": "2"},
  outside=["concurrent Update and Call (sequential histories)", "longer histories"],
- runs={"quick": [run("CLT", params={"clt.S": 2}, labels=CLT_C16)], "thorough": [run("CLT", params={"clt.S": 3}, labels=CLT_C16, budget=1500)]})
+ runs={"quick": [run("CLT", params={"clt.S": 2}, labels=CLT_C16), run("CLT", params={"clt.S": 2, "clt.slowping": 1, "clt.ticks": 1}, labels=CLT_C16, budget=300), run("C18u", labels=["routed-to-current-target", "live-list-rebuilt-after-update"])], "thorough": [run("CLT", params={"clt.S": 3}, labels=CLT_C16, budget=1500), run("CLT", params={"clt.S": 3, "clt.slowping": 1, "clt.ticks": 1}, labels=CLT_C16, budget=2400), run("C18u", labels=["routed-to-current-target", "live-list-rebuilt-after-update"])]})
 
 C["C17"] = dict(level="other",
  explanation="Data-level symbolic execution of schedule/minHeap/heapDown/list/target.Update: round-robin from any cursor gives n distinct targets in n picks; Random picks list[i] for an arbitrary i in range; after minHeap the root is minimal and the heap is a permutation (arbitrary 64-bit latencies); LeastTime probes iff lastTime+Tick < now (symbolic clock and Tick), at most one probe per Tick, otherwise picks a minimal-latency target; target.Update follows the documented branch structure and its EWMA term equals the reference formula under IEEE-754 (differential query).",
@@ -205,8 +205,8 @@ C["C18"] = dict(level="other",
  stubs=["zzRT", "timers"],
  bounds={"concurrent callers": "quick 1, thorough 2", "ticks": "2"},
  outside=["wall-clock 'within a bounded detection time'", "more waiters"],
- runs={"quick": [run("C18w", params={"c18.N": 1}), run("CLT", params={"clt.S": 2}, labels=["call-after-close-is-shutdown", "second-close-nil", "all-goroutines-exit-after-close", "unrouted-call-fails-with-timeout"])],
-       "thorough": [run("C18w", params={"c18.N": 2}, budget=1500), run("CLT", params={"clt.S": 3}, labels=["call-after-close-is-shutdown", "second-close-nil", "all-goroutines-exit-after-close", "unrouted-call-fails-with-timeout"], budget=1500)]})
+ runs={"quick": [run("C18w", params={"c18.N": 1}), run("C18u"), run("C18c"), run("C18c", P=1, gran=1), run("CLT", params={"clt.S": 2}, labels=["call-after-close-is-shutdown", "second-close-nil", "all-goroutines-exit-after-close", "unrouted-call-fails-with-timeout"])],
+       "thorough": [run("C18w", params={"c18.N": 2}, budget=1500), run("C18u"), run("C18c", P=2, gran=1, params={"c18.N": 2}, budget=900), run("C18w", P=1, gran=1, params={"c18.N": 1, "c18.ticks": 1}, budget=1500), run("CLT", params={"clt.S": 3}, labels=["call-after-close-is-shutdown", "second-close-nil", "all-goroutines-exit-after-close", "unrouted-call-fails-with-timeout"], budget=1500)]})
 
 C["C19"] = dict(level="other",
  explanation="One CallWithContext (harness-side context.Context with a buffer of symbolic stale contents and capacity smaller/equal/larger than the reply) and a sibling call on a real Conn; a correct server answers, the context is cancelled, or the call is never answered, in five scripts and every interleaving; a later call follows. CallWithContext returns (never stuck), with the context error when never answered, the reply when never cancelled, one of the two otherwise; the sibling and the later call get their own replies (a late response cannot land on a recycled call: LIFO pool reuse); buffer rules as in C11.",
@@ -214,8 +214,8 @@ C["C19"] = dict(level="other",
  assumptions=COMMON_ASSUME,
  stubs=["zzMsgs", "zzBytesCodec", "harness context.Context"],
  bounds={"reply length": "2 or 4 bytes", "buffer capacity": "none, 1, len-1, len, len+2", "schedules": SCHED},
- outside=["several abandoned calls", "Transport/Client wrappers"],
- runs={"quick": [run("C19")], "thorough": [run("C19"), run("C19", P=1, gran=1, budget=1500)]})
+ outside=["several abandoned calls", "Client wrapper"],
+ runs={"quick": [run("C19"), run("TRctx")], "thorough": [run("C19"), run("TRctx"), run("TRctx", P=1, gran=1), run("C19", P=1, gran=1, budget=1500)]})
 
 C["C20"] = dict(level="other",
  explanation="Terminal-state assertions after Close: Conn (C03 harness: every goroutine of the connection exits after the cut, the socket is closed, repeated Close reports ErrShutdown), Transport (TR harness: Close closes every pooled connection, the ticker goroutine exits), Client (CLT harness: detector goroutine exits, Transport closed, second Close nil), non-poll Server through the real Server.listen with a stub listener (two accepted connections, Close and peer disconnects in either order: Listen returns, accepted connections are closed, every goroutine exits, repeated Close returns nil).",
